@@ -86,8 +86,10 @@ class C14(InputProp):
         from mwlib.apps import buildzip
         from mwlib.utils import unorganized
         self.fetch, self.siteinfo, self.wiki, self.buildzip, self.unorganized = fetch, siteinfo, wiki, buildzip, unorganized
+        pairs = [(a, b, order) for (a, b) in (("Flag.svg", "Flag.png"), ("Flag.gif", "Flag.png"), ("Flag.tif", "Flag.tiff"), ("Flag.jpg", "Flag.png"),
+                                               ("Flag a.png", "Flag_a.png.png"), ("Flag.PNG", "Flag.png")) for order in ("ab", "ba")]
         fams = [Items(page_histories(tier), name="pages"), Items(REDIRECT_CASES, name="redirects"),
-                Items(IMAGE_CASES, name="images"), Items([("all",)], name="fs_escape")]
+                Items(IMAGE_CASES, name="images"), Items([("all",)], name="fs_escape"), Items(pairs, name="image-pairs")]
         self.space = Concat(*fams)
 
     # ------------------------------------------------------------------ helpers
@@ -126,6 +128,8 @@ class C14(InputProp):
                     return self.run_redirects(c)
                 if fam == "images":
                     return self.run_images(c)
+                if fam == "image-pairs":
+                    return self.run_image_pair(c)
                 return self.run_fs_escape()
             except Exception as e:
                 if "/verif/" in (e.__traceback__.tb_next.tb_frame.f_code.co_filename if e.__traceback__.tb_next else "") and \
@@ -276,6 +280,33 @@ class C14(InputProp):
                 if data != payload:
                     viol.append({"sig": "image-spelling", "msg": "[%s] get_disk_path(%r) -> %r does not give the file stored under %r" % (lang, s, path, canon)})
             return {"key": (lang, partial, tuple(key)), "steps": len(sp), "viol": viol}
+        finally:
+            self.cleanup(d, env)
+
+    def run_image_pair(self, c):
+        """two distinct image titles (same stem, different extension) stored in one archive and looked up in both orders"""
+        a, b, order = c
+        titles = ["File:" + a, "File:" + b]
+        payload = {t: ("bytes of " + t).encode("utf-8") for t in titles}
+        viol = []
+
+        def writer(fs):
+            for t in titles:
+                with open(fs.get_imagepath(t), "wb") as f:
+                    f.write(payload[t])
+
+        d, env = self.build("en", writer)
+        try:
+            w = env.wiki
+            key = []
+            for t in (titles if order == "ab" else titles[::-1]) * 2:
+                path = w.get_disk_path(t)
+                data = open(path, "rb").read() if path and os.path.exists(path) else None
+                key.append((t, data == payload[t]))
+                if data != payload[t]:
+                    viol.append({"sig": "image-pair:%s" % ("/".join(sorted(os.path.splitext(x)[1].lower() for x in (a, b)))),
+                                 "msg": "get_disk_path(%r) gives %r, stored %r (both %r are in the archive, lookup order %s)" % (t, data, payload[t], titles, order)})
+            return {"key": ("pair", a, b, tuple(key)), "steps": 4, "viol": viol[:1]}
         finally:
             self.cleanup(d, env)
 
